@@ -3,6 +3,7 @@ C20 — Streaming in bounded memory (bookkeeping part): what the extraction path
 on to, for every decoder.
 -/
 import SevenZ.Lemmas.Decode
+import SevenZ.Model.Stages
 namespace SevenZ.C20
 open SevenZ SevenZ.Impl
 
@@ -47,6 +48,79 @@ theorem ignoring_decoder_ce :
     (decompress ({ dec := fun s _ _ => (s, List.replicate 100 0) } : Chain Unit)
       { inputSize := 10, blockSize := 4 } { chain := (), src := [1, 2, 3, 4] } 1).2.2.buf.length = 99 := by
   decide +kernel
+
+/-- Every stage of the coder chain is held to the caller's `max_length`: when each decoder
+    honours the limit it is given, no stage of `_decompress` — first, middle or last — returns
+    more than `max_length` bytes in one call, for chains of any length.  (A chain that limits
+    only its last stage lets an earlier decompressor expand a whole input block at once.) -/
+theorem every_stage_bounded {σ} (dec : σ → Bytes → Nat → σ × Bytes) (hon : ∀ s d k, (dec s d k).2.length ≤ k)
+    (sts : List (StageSt σ)) (data : Bytes) (k : Nat) (res : Bytes) (lens : List Nat) (sts' : List (StageSt σ))
+    (h : stagesStep dec sts data k = some (res, lens, sts')) : ∀ n ∈ lens, n ≤ k := by
+  induction sts generalizing data res lens sts' with
+  | nil => simp [stagesStep] at h; obtain ⟨_, rfl, _⟩ := h; simp
+  | cons s rest ih =>
+    unfold stagesStep at h
+    split at h
+    · dsimp only at h
+      split at h
+      · rename_i res' lens' sts'' heq
+        simp only [Option.some.injEq, Prod.mk.injEq] at h
+        obtain ⟨_, rfl, _⟩ := h
+        intro n hn
+        simp only [List.mem_cons] at hn
+        rcases hn with rfl | hn
+        · exact hon _ _ _
+        · exact ih _ _ _ _ heq n hn
+      · cases h
+    · split at h
+      · split at h
+        · rename_i res' lens' sts'' heq
+          simp only [Option.some.injEq, Prod.mk.injEq] at h
+          obtain ⟨_, rfl, _⟩ := h
+          intro n hn
+          simp only [List.mem_cons] at hn
+          rcases hn with rfl | hn
+          · omega
+          · exact ih _ _ _ _ heq n hn
+        · cases h
+      · cases h
+
+/-- and the result handed back is bounded too (non-empty chain whose last stage is live or finished) -/
+theorem stages_result_bounded {σ} (dec : σ → Bytes → Nat → σ × Bytes) (hon : ∀ s d k, (dec s d k).2.length ≤ k)
+    (sts : List (StageSt σ)) (hne : sts ≠ []) (data : Bytes) (k : Nat) (res : Bytes) (lens : List Nat) (sts' : List (StageSt σ))
+    (h : stagesStep dec sts data k = some (res, lens, sts')) : res.length ≤ k := by
+  induction sts generalizing data res lens sts' with
+  | nil => exact absurd rfl hne
+  | cons s rest ih =>
+    unfold stagesStep at h
+    split at h
+    · dsimp only at h
+      split at h
+      · rename_i res' lens' sts'' heq
+        simp only [Option.some.injEq, Prod.mk.injEq] at h
+        obtain ⟨rfl, _, _⟩ := h
+        cases rest with
+        | nil =>
+          simp [stagesStep] at heq
+          obtain ⟨rfl, _, _⟩ := heq
+          simp only [List.length_take]
+          have := hon s.st data k
+          omega
+        | cons s2 r2 => exact ih (by simp) _ _ _ _ heq
+      · cases h
+    · split at h
+      · split at h
+        · rename_i res' lens' sts'' heq
+          simp only [Option.some.injEq, Prod.mk.injEq] at h
+          obtain ⟨rfl, _, _⟩ := h
+          cases rest with
+          | nil =>
+            simp [stagesStep] at heq
+            obtain ⟨rfl, _, _⟩ := heq
+            simp
+          | cons s2 r2 => exact ih (by simp) _ _ _ _ heq
+        · cases h
+      · cases h
 
 example : (∀ s d k, (({ dec := fun s _ k => (s, List.replicate k 7) } : Chain Unit).dec s d k).2.length ≤ k) := by
   intro s d k; simp
